@@ -6,7 +6,7 @@
 # - run the named checks (default: the property's own) against the patched tree
 ID="$1"; shift
 CHECKS="${@:-$ID}"
-OUT=${SEEDBASE:-/tmp/seed8}/out-$ID
+OUT=${SEEDBASE:-/tmp/seed9}/out-$ID
 W=/tmp/sc-$ID-$$
 declare -A T
 T[C01]="tests/binpacking2d/encodings tests/binpacking2d/test_binpacking2d_packing_space.py"
